@@ -98,7 +98,7 @@ def gen_history(rng):
             if not base["tree"]:
                 job["layout"] = "flat"
             hist.append({"inputs": base["inputs"], "cmps": base["cmps"], "job": job, "reuse": j, "tree": base["tree"],
-                         **{k: base[k] for k in ("dictFields", "dictRegex", "kinds", "datetime") if k in base}})
+                         **{k: base[k] for k in ("dictFields", "dictRegex", "kinds", "datetime", "defaultRegistry") if k in base}})
         else:
             c = _c06.gen_case(rng)
             r2 = rng.random()
@@ -112,6 +112,11 @@ def gen_history(rng):
                 c["kinds"] = rng.choice([["IntString"], [], ["BooleanString", "FloatString"]])
             elif r2 < 0.55:
                 c["datetime"] = True
+            elif r2 < 0.72:
+                # every default left alone: no registry argument (the process-wide default registry of string types), over
+                # data that holds numeric strings
+                c["defaultRegistry"] = True
+                c["inputs"][0][1].append({"count": "12", "ratio": "1.5", "flag": "true", "when": "2020-01-02"})
             try:
                 reg, _ = stages.build_registry([tuple(x) for x in c["inputs"]],
                                                stages.make_registry(tuple(c.get("kinds", ("IntString", "FloatString", "BooleanString"))),
